@@ -122,7 +122,10 @@ def streams(rng, tier):
         k = rng.random()
         if k < 0.35:
             cl = [gen_spec.spec_string(rng, op=rng.choice(gen_spec.OPS[:7]))[0].strip() for _ in range(rng.choice([2, 3, 4]))]
-            if has_equal_duplicates(cl): continue
+            if rng.random() < 0.3:                  # the same operator twice with different (or equal) versions: the law itself skips the D33 class
+                o = rng.choice(gen_spec.OPS[:7]); cl += [gen_spec.spec_string(rng, op=o)[0].strip(), gen_spec.spec_string(rng, op=o)[0].strip()]
+            cl = [c for c in cl if "," not in c]
+            if len(cl) < 2: continue
             out.append(Case("perm-set", "law.det.perm", [rng.choice(["set", "and", "req-clauses"]), str(rng.randrange(10**6))] + cl, kind="law"))
         elif k < 0.6:
             out.append(Case("perm-extras", "law.det.perm", ["req-extras", str(rng.randrange(10**6))] + rng.sample(gen_misc.EXTRAS, rng.choice([2, 3, 4])), kind="law"))
